@@ -60,7 +60,39 @@ func checkWiring(r *core.Report, fname string, rows []wiringRow, forbidden []str
 			})
 		}
 		sort.Strings(opts)
+		// the option is in the list before the list is used: a consumer of the option slice that
+		// comes before the append validates without this option
+		early := ""
+		if path := core.PathTo(fd.Body, calls[0]); path != nil {
+			var holder types.Object
+			for _, n := range path {
+				if as, ok := n.(*ast.AssignStmt); ok && len(as.Lhs) == 1 {
+					if id, ok := ast.Unparen(as.Lhs[0]).(*ast.Ident); ok {
+						holder = info.ObjectOf(id)
+					}
+				}
+			}
+			if holder != nil {
+				ast.Inspect(fd.Body, func(n ast.Node) bool {
+					c, ok := n.(*ast.CallExpr)
+					if !ok || c.Pos() >= calls[0].Pos() {
+						return true
+					}
+					if id, ok := ast.Unparen(c.Fun).(*ast.Ident); ok && id.Name == "append" {
+						return true
+					}
+					for _, a := range c.Args {
+						if id, ok := ast.Unparen(a).(*ast.Ident); ok && info.ObjectOf(id) == holder && early == "" {
+							early = core.ExprStr(c.Fun)
+						}
+					}
+					return true
+				})
+			}
+		}
 		switch {
+		case early != "":
+			r.Bad(key, p.Pos(calls[0].Pos()), fmt.Sprintf("%s is added to the option list after %s has already been called with that list: that validation runs without the option", row.ctor, early))
 		case row.option == "" && len(opts) > 0:
 			r.Bad(key, p.Pos(calls[0].Pos()), fmt.Sprintf("%s must be passed unconditionally but is conditioned on %v", row.ctor, opts))
 		case row.option != "" && (len(opts) != 1 || opts[0] != row.option || !okPol):
